@@ -60,8 +60,9 @@ Definition path_fields (s : list N) : list (list N) :=
   let s' := if ends_with bip32_path_sep s then removelast s else s in
   filter (fun e => negb (is_empty e)) (split_on ch_slash s').
 
-(* __ParseElem.  [conv] says what happens to a ValueError raised by int():
-     the property-conformant parser reports Bip32PathError; the current code lets it escape. *)
+(* __ParseElem.  [int_err] is the exception a ValueError of int() is turned into: Bip32PathError in the code
+   (since fix 751715b); before that fix the ValueError escaped (defect F5), kept below as
+   [parse_before_fix] for the historical witness only. *)
 Definition parse_elem_gen (int_err : exn) (e : list N) : res Z :=
   let e1 := py_strip e in
   let hard := existsb (fun suf => ends_with suf e1) bip32_hardened_chars in
@@ -81,12 +82,11 @@ Definition parse_gen (int_err : exn) (s : list N) : res path :=
   idx <- mapM (parse_elem_gen int_err) fs' ;;
   make_path idx is_abs.
 
-(* the parser the property demands: every rejection is Bip32PathError *)
+(* Bip32PathParser.Parse: every rejection is Bip32PathError *)
 Definition parse_elem := parse_elem_gen (LibError Bip32PathError).
 Definition parse := parse_gen (LibError Bip32PathError).
-(* the parser as it is today (defect F5): int()'s ValueError escapes *)
-Definition parse_elem_current := parse_elem_gen ValueError.
-Definition parse_current := parse_gen ValueError.
+(* HISTORICAL -- the parser before fix 751715b (defect F5): int()'s ValueError escaped *)
+Definition parse_before_fix := parse_gen ValueError.
 
 (* ---- Bip32Base.DerivePath over an abstract child-key function ---- *)
 Section Derive.
